@@ -1,1 +1,12 @@
 import SwcVerif.Props.C08
+#print axioms C08.getBranches_eq
+#print axioms C08.branches_partition_edges
+#print axioms C08.branch_shape
+#print axioms C08.branch_ends
+#print axioms C08.getPaths_eq
+#print axioms C08.paths_one_per_tip
+#print axioms C08.tips_eq_childless
+#print axioms C08.tipsOf_childless
+#print axioms C08.furcations_eq
+#print axioms C08.furcsOf_ge2
+#print axioms C08.branchTree_table
